@@ -14,6 +14,8 @@ import Driver.C12
 import Driver.C01
 import Driver.C05
 import Driver.C04
+import Driver.C09
+import Driver.C20
 open Lean Driver
 
 def dispatch (p : String) (inp impl : Json) : CaseResult :=
@@ -33,6 +35,8 @@ def dispatch (p : String) (inp impl : Json) : CaseResult :=
   | "C01" => C01.handle inp impl
   | "C05" => C05.handle inp impl
   | "C04" => C04.handle inp impl
+  | "C09" => C09.handle inp impl
+  | "C20" => C20.handle inp impl
   | "C07" => C01.handleC07 inp impl
   | "C03" => Signer.handleC03 inp impl
   | _ => { model := Json.null, spec := false, why := "unknown property " ++ p }
